@@ -317,7 +317,9 @@ bool owns(const std::string& prop, const std::string& c) { return prop == "C18" 
 static bool g_gen_has_huge = false;
 static std::string gen_name(sim::Rng& g, int serial) {
     std::string base = "n" + std::to_string(serial);
-    switch (g.below(10)) {
+    switch (g.below(12)) {
+        case 10: return std::string(1, "abcxyzCD"[g.below(8)]) + ":" + base;       // looks like a drive letter
+        case 11: return base + ":";
         case 0: return base + " with spaces ";
         case 1: return "." + base;
         case 2: return base + ".";
@@ -336,7 +338,9 @@ static Json gen_tree(sim::Rng& g, int depth, int maxdepth, int maxfan, bool thor
     int fan = depth == 0 ? g.range(1, maxfan) : g.range(0, maxfan);
     for (int i = 0; i < fan; i++) {
         std::string kn = gen_name(g, serial++);
-        if (depth + 1 < maxdepth && g.below(3) == 0) kids.push(gen_tree(g, depth + 1, maxdepth, maxfan, thorough, serial, kn));
+        bool subdir = depth + 1 < maxdepth && g.below(3) == 0;
+        if (subdir && g.below(4) == 0) kn = "n" + std::to_string(serial++) + std::string(190, 'D');  // working directories beyond 255 bytes
+        if (subdir) kids.push(gen_tree(g, depth + 1, maxdepth, maxfan, thorough, serial, kn));
         else {
             static const int64_t sizes[] = {0, 1, 4095, 4096, 70000, 17, 300};
             int64_t s = sizes[g.below(7)];
@@ -372,8 +376,8 @@ void generate(sim::Rng& g, const std::string&, const std::string& tier, Json& pr
     }
     program.set("ops", ops);
     Json laws = Json::array();
-    static const char* dirs[] = {"a", "a/", "/", "/x", "/x/", "a/b", "a/b/", "a//", ".", "./", "..", "../", "/x/y.z/", "a b", "\xc3\xa9", "a.b", "//"};
-    static const char* names[] = {"n", "n.txt", ".n", "n.", "...", "a b", "\xff", "x\xc3\xa9", "n.tar.gz", "-", "~"};
+    static const char* dirs[] = {"a", "a/", "/", "/x", "/x/", "a/b", "a/b/", "a//", ".", "./", "..", "../", "/x/y.z/", "a b", "\xc3\xa9", "a.b", "//", "data", "/tmp/cache", "n/n", "x:", "lib/lib"};
+    static const char* names[] = {"n", "n.txt", ".n", "n.", "...", "a b", "\xff", "x\xc3\xa9", "n.tar.gz", "-", "~", "a:b.txt", "c:", "x:1", "1:x", "data"};
     int nl = g.range(2, 8);
     for (int i = 0; i < nl; i++) {
         std::string d = dirs[g.below(sizeof dirs / sizeof *dirs)];
